@@ -124,7 +124,10 @@ TextMatch(tm, value) ==
 
 PropValue(c, prop) == IF prop = "SUMMARY" THEN c.summary
                       ELSE IF c.att = "none" THEN "" ELSE "mailto:a@example.com"
-PropDefined(c, prop) == IF prop = "SUMMARY" THEN c.summary # "" ELSE c.att # "none"
+\* (the summary token "RECURRING" marks a component that carries an RRULE)
+PropDefined(c, prop) == IF prop = "SUMMARY" THEN c.summary # ""
+                        ELSE IF prop = "RRULE" THEN c.summary = "RECURRING"
+                        ELSE c.att # "none"
 ParamValue(c) == CASE c.att = "accepted" -> "ACCEPTED" [] c.att = "declined" -> "DECLINED" [] OTHER -> ""
 
 \* 9.7.3 param-filter
